@@ -16,7 +16,10 @@
 //!           independently re-encodes the input and evaluates the property's clauses on the fresh
 //!           blocks (oracle lines).
 //!
-//! Result line: `ok <n> <shape> <portable> <hashes>` (shape: per block mode digits, see `shape`).
+//! Result line: `ok <n> <shape> <portable> <hashes> <pred> <b7>` (shape: per block mode digits, see `shape`;
+//! pred: for RGBA8 inputs the bytes of each emitted block at the places the discrete encoder model predicts,
+//! `offset:hex` pieces, see `predicted_pieces`; b7: for BC7 / RGBA8 / no dithering the header fields of each emitted
+//! block, see `bc7_obs` — the model appends `@` and the constraint of its discrete rules, tools/propcfg/C13.py `equal`).
 use crate::common::{toks, Rng};
 use dds::{
     decode, encode, Channels, ColorFormat, CompressionQuality, DecodeOptions, Dithering, EncodeOptions,
